@@ -174,7 +174,8 @@ def _anchor_component(ctx, provider="zoneinfo"):
     for cq, endp in (("cal.Event", "DTEND"), ("cal.Todo", "DUE")):
         ci = m.cls(cq)
         for skind in (("date", "naive", "zoned") if provider == "zoneinfo" else ("zoned",)):
-            ends = ["none", "END", "DUR-days", "DUR-zero"] + (["DUR-sub"] if skind != "date" else [])
+            ends = ["none", "END", "DUR-days", "DUR-zero"] + (["DUR-sub"] if skind != "date" else []) + \
+                (["END-other-zone"] if skind == "zoned" and provider == "zoneinfo" else [])
             for endspec in ends:
                 for (label, kind, related, subday), dur, rep in itertools.product(
                         TRIGGERS, (None, "days", "sub"), repeats):
@@ -185,9 +186,10 @@ def _anchor_component(ctx, provider="zoneinfo"):
                     comp.items["DTSTART"] = it.call(vddd, [DT(skind, None, {"START": 1},
                                                               "Europe/Berlin" if skind == "zoned" else None)], {})
                     start_term = {"START": 1}
-                    if endspec == "END":
+                    if endspec in ("END", "END-other-zone"):
+                        ezone = "America/New_York" if endspec == "END-other-zone" else "Europe/Berlin"
                         comp.items[endp] = it.call(vddd, [DT(skind, None, {"END": 1},
-                                                             "Europe/Berlin" if skind == "zoned" else None)], {})
+                                                             ezone if skind == "zoned" else None)], {})
                         end_term = {"END": 1}
                     elif endspec.startswith("DUR"):
                         mag = {"DUR-days": "days", "DUR-sub": "subday", "DUR-zero": "zero"}[endspec]
@@ -217,7 +219,7 @@ def _anchor_component(ctx, provider="zoneinfo"):
                               "C14/ANCHOR", key,
                               f"alarm times {[t for t, _ in got]}"
                               f"{' (time-of-day part of a duration dropped by date arithmetic)' if dropped else ''}"
-                              f"{' (a pytz wall clock with a stale offset is re-read in the zone: the instant moves by the DST delta)' if moved else ''}"
+                              f"{' (the instant is moved: a pytz wall clock with a stale offset is re-read in the zone, or a difference of instants is added to a wall clock of another zone)' if moved else ''}"
                               f", expected {exp}", al_cls.loc(), detail=", ".join(exp) or "no times")
     if provider != "zoneinfo":
         ctx.extra["component_cases_pytz"] = n
